@@ -273,7 +273,7 @@ Proof.
   - destruct (Nat.eqb _ e); cbn; unfold kset; cbn; rewrite H; now apply klookup_kremove_other.
 Qed.
 Lemma mdocs_nonvacuous :
-  mrun {| md_disk := [((0, 0), 10); ((1, 0), 11)]; md_docs := [] |}
+  mrun {| md_disk := [((0, 0), 10); ((1, 0), 11)]; md_docs := []; md_dirs := [0; 1] |}
        [MOpen (1, 0); MApply (1, 0) 1 20; MRenameDir 0 2; MApply (1, 0) 1 30; MApply (1, 0) 2 30; MOpen (2, 0); MOpen (0, 0); MRenameDir 1 2] =
   [MVersion 1 11; MVersion 2 20; MDone; MConflict 2; MVersion 3 30; MVersion 1 10; MNotFound; MExists].
 Proof. vm_compute. reflexivity. Qed.
